@@ -293,6 +293,19 @@ def gen_program(rng, dim, opts=None):
         cur = b.add(('cat', lst), sum(b.ch[j] for j in lst), b.sp[cur])
         if rng.random() < .6:
             cur = b.add(('relu', cur), b.ch[cur], b.sp[cur])
+    if o.get('shared_bn'):
+        # one BatchNorm module following two DIFFERENT layers of the same width (each layer gets its own copy at import)
+        C = rng.choice([2, 3, 4])
+        a = b.conv(cur, cout=C, keep_size=True, p_bn=1)
+        bnnode = a
+        while b.prog[bnnode][0] != 'bn':
+            bnnode -= 1
+        c2 = b.conv(a, cout=C, keep_size=True, p_bn=0)
+        for lst in (b.prog, b.ch, b.sp, b.taint):      # drop the ReLU: the shared BatchNorm comes first
+            lst.pop()
+        c2 = b.add(('reuse', len(b.prog) - 1, bnnode), C, b.sp[a])
+        b.taint[-1] = False
+        cur = b.add(('relu', c2), C, b.sp[a])
     if o.get('shared_pad') and dim == 1:
         # one causally padded tensor (or one padding module) feeding two convolutions with the same kernel
         # extent: each needs its own amount of padding once its receptive field is pruned
